@@ -219,3 +219,11 @@ package tmstate
 //@   rely after roundEntranceOutCh responder-does-not-close-the-response-channel: !chanclosed(initRE.Response)
 //@   option frame off
 //@   modifies heap
+
+// ---- entering a round with the view the mirror already has (C08, C09, C12) ----
+//@ func StateMachine.beginRoundLive
+//@   property C08 C09 C12
+//@   requires initVRV.VoteSummary.AvailablePower > 0 && timers(0) == 0 && rlc.CancelTimer == nil && rlc.StepTimer == nil
+//@   requires rlc.PrevoteHashCh != nil && rlc.PrecommitHashCh != nil && rlc.PrevConsideredHashes != nil
+//@   ensures timer-inv: result ==> TimerInv(rlc)
+//@   modifies heap
